@@ -91,6 +91,16 @@ type Card struct {
 	// how many bytes to deliver (clamped to 0..n) and the status (0 = keep the status).
 	// Used for chips that answer particular reads short or refuse a read once.
 	ReadPolicy func(off, ne, n int) (int, uint16)
+	// ReadAnswer (default nil): asked last for every READ BINARY that is about to deliver data
+	// bytes (possibly none) of the current file from offset off with status sw; what it
+	// returns is sent instead (under secure messaging as protected data and status). Used for
+	// chips whose answer to a particular read is not taken from the stored file (blank or
+	// filler bytes, no data at all).
+	ReadAnswer func(off, ne int, data []byte, sw uint16) ([]byte, uint16)
+	// FailedSelectDeselects (default false: a SELECT EF that does not complete leaves the current
+	// file as it was): when set, such a SELECT leaves the chip without a current file (ISO/IEC
+	// 7816-4 leaves this to the chip), so that a following READ BINARY answers 6986.
+	FailedSelectDeselects bool
 }
 
 func NewCard() *Card {
@@ -252,14 +262,22 @@ func (c *Card) doSelect(cmd *Cmd) ([]byte, uint16) {
 			if sw, sel, over := c.SelectEFStatus(fid, ok); over {
 				if sel && ok {
 					c.cur, c.curSet, c.curFID = f, true, fid
+				} else if c.FailedSelectDeselects {
+					c.curSet = false
 				}
 				return nil, sw
 			}
 		}
 		if !ok {
+			if c.FailedSelectDeselects {
+				c.curSet = false
+			}
 			return nil, 0x6A82
 		}
 		if c.inLDS && c.AuthRequired && !c.Authed {
+			if c.FailedSelectDeselects {
+				c.curSet = false
+			}
 			return nil, 0x6982
 		}
 		c.cur, c.curSet, c.curFID = f, true, fid
@@ -346,7 +364,11 @@ func (c *Card) doReadBinary(cmd *Cmd) ([]byte, uint16) {
 			sw = psw
 		}
 	}
-	return append([]byte{}, c.cur[off:off+n]...), sw
+	out := append([]byte{}, c.cur[off:off+n]...)
+	if c.ReadAnswer != nil {
+		return c.ReadAnswer(off, cmd.Ne, out, sw)
+	}
+	return out, sw
 }
 
 func (c *Card) String() string {
